@@ -221,7 +221,9 @@ def joint_cfg(rng):
 
 def make_strategy():
     from hypothesis import strategies as st
-    return st.tuples(st.one_of(gen_c.c_program(max_depth=3, max_funcs=2).map(lambda t: ('C', t)), gen_cpp.cpp_program(max_snippets=4).map(lambda t: ('CPP', t))),
+    from vf import gen_java
+    return st.tuples(st.one_of(gen_c.c_program(max_depth=3, max_funcs=2).map(lambda t: ('C', t)), gen_cpp.cpp_program(max_snippets=4).map(lambda t: ('CPP', t)),
+                               gen_java.java_program(max_snippets=3).map(lambda t: ('JAVA', t))),
                      st.integers(0, 2 ** 32 - 1), st.integers(0, 2 ** 32 - 1))
 
 
